@@ -334,6 +334,65 @@ func init() {
 		}
 		return ex.invokeFuncValue(st, newf, nil, site)
 	}
+	// sync.Map by contract on the engine's map model (entries guarded by the path condition under which they were
+	// stored, so the model is path-sensitive although it lives beside the state); keyed by the map's concrete address
+	syncMapOf := func(ex *Exec, v Value) int {
+		pc, ok := v.(*PtrC)
+		if !ok || pc.Obj == 0 {
+			panic(unsupported("sync.Map reached through a symbolic pointer"))
+		}
+		if ex.syncMaps == nil {
+			ex.syncMaps = map[string]*MapVal{}
+		}
+		return pc.Obj
+	}
+	anyT := types.Universe.Lookup("any").Type()
+	smKey := func(ex *Exec, v Value) string {
+		pc := v.(*PtrC)
+		return fmt.Sprintf("%d/%v", syncMapOf(ex, v), pc.Path)
+	}
+	smGet := func(ex *Exec, v Value) *MapVal {
+		k := smKey(ex, v)
+		if m := ex.syncMaps[k]; m != nil {
+			return m
+		}
+		m := &MapVal{KeyT: anyT, ValT: anyT}
+		ex.syncMaps[k] = m
+		return m
+	}
+	smPut := func(ex *Exec, st *State, v Value, key, val Value, present *Term) {
+		m := smGet(ex, v)
+		r := &MapVal{KeyT: anyT, ValT: anyT, Entries: append([]MapEntry{}, m.Entries...)}
+		r.Entries = append(r.Entries, MapEntry{G: st.pcTerm(), Present: present, K: ex.mapKey(st, key), V: val})
+		ex.syncMaps[smKey(ex, v)] = r
+	}
+	intrinsics["(*sync.Map).Load"] = func(ex *Exec, st *State, fn *ssa.Function, args []Value, site ssa.Instruction) Value {
+		v, present := ex.mapLookup(st, smGet(ex, args[0]), args[1])
+		return &Agg{E: []Value{v, present}}
+	}
+	intrinsics["(*sync.Map).Store"] = func(ex *Exec, st *State, fn *ssa.Function, args []Value, site ssa.Instruction) Value {
+		smPut(ex, st, args[0], args[1], args[2], True)
+		return nil
+	}
+	intrinsics["(*sync.Map).Delete"] = func(ex *Exec, st *State, fn *ssa.Function, args []Value, site ssa.Instruction) Value {
+		smPut(ex, st, args[0], args[1], &IfaceC{}, False)
+		return nil
+	}
+	intrinsics["(*sync.Map).LoadOrStore"] = func(ex *Exec, st *State, fn *ssa.Function, args []Value, site ssa.Instruction) Value {
+		v, present := ex.mapLookup(st, smGet(ex, args[0]), args[1])
+		if present.IsFalse() {
+			smPut(ex, st, args[0], args[1], args[2], True)
+			return &Agg{E: []Value{args[2], False}}
+		}
+		if present.IsTrue() {
+			return &Agg{E: []Value{v, True}}
+		}
+		m := smGet(ex, args[0])
+		r := &MapVal{KeyT: anyT, ValT: anyT, Entries: append([]MapEntry{}, m.Entries...)}
+		r.Entries = append(r.Entries, MapEntry{G: And(st.pcTerm(), Not(present)), Present: True, K: ex.mapKey(st, args[1]), V: args[2]})
+		ex.syncMaps[smKey(ex, args[0])] = r
+		return &Agg{E: []Value{mergeValue(present, v, args[2]), present}}
+	}
 	intrinsics["(*sync.WaitGroup).Add"] = nop
 	intrinsics["(*sync.WaitGroup).Done"] = nop
 	intrinsics["(*sync.WaitGroup).Wait"] = func(ex *Exec, st *State, fn *ssa.Function, args []Value, site ssa.Instruction) Value {
@@ -463,6 +522,7 @@ func init() {
 	intrinsics["strings.Clone"] = func(ex *Exec, st *State, fn *ssa.Function, args []Value, site ssa.Instruction) Value {
 		return args[0]
 	}
+	intrinsics["internal/stringslite.Clone"] = intrinsics["strings.Clone"]
 	intrinsics["internal/godebug.(*Setting).Value"] = func(ex *Exec, st *State, fn *ssa.Function, args []Value, site ssa.Instruction) Value {
 		return ex.strConst("")
 	}
